@@ -294,6 +294,13 @@ pub fn ref_resolve(r: &Room, sets: &[SMap]) -> SMap {
 }
 
 pub fn ref_resolve_traced(r: &Room, sets: &[SMap]) -> (SMap, RefTrace) {
+    ref_resolve_variant(r, sets, false)
+}
+
+/// `conflate_no_ancestor`: the single deviation of known finding C07/mainline_depth_conflation -
+/// an event without power-levels ancestor gets the position of the oldest mainline event instead
+/// of infinity. Used only to recognise that finding precisely.
+pub fn ref_resolve_variant(r: &Room, sets: &[SMap], conflate_no_ancestor: bool) -> (SMap, RefTrace) {
     let mut trace = RefTrace { conflicted: 0, auth_diff_not_in_conflicted: false, power_events: 0, rejected_in_iterative_auth: 0, no_pl_ancestor_in_mainline_phase: false, tie_pl_ts: false, closure_differs_from_conflicted_path_closure: false };
     // 1. unconflicted state map and conflicted state set
     let keys: BTreeSet<&Key> = sets.iter().flat_map(|s| s.keys()).collect();
@@ -403,6 +410,10 @@ pub fn ref_resolve_traced(r: &Room, sets: &[SMap]) -> (SMap, RefTrace) {
                 trace.no_pl_ancestor_in_mainline_phase = true;
             }
             // greater position first; infinity greatest
+            let pos = match pos {
+                None if conflate_no_ancestor && !mainline.is_empty() => Some(mainline.len() - 1),
+                p => p,
+            };
             let k = match pos {
                 None => (0u8, std::cmp::Reverse(0usize), r.events[id].ts, id.clone()),
                 Some(i) => (1u8, std::cmp::Reverse(i), r.events[id].ts, id.clone()),
